@@ -45,7 +45,7 @@ import (
 
 type Action struct {
 	Kind string `json:"kind"`
-	// pub-rtmp pub-rtsp pub-customize pub-rtp input-leave sub sub-leave kick pull-start pull-proceed pull-stop refused-sends tick
+	// pub-rtmp pub-rtsp pub-customize pub-rtp input-leave sub sub-leave sub-rejoin kick pull-start pull-proceed pull-stop refused-sends tick
 	Name int    `json:"name"`          // stream index
 	Sel  int    `json:"sel,omitempty"` // selector (subscriber / kick target / pull outcome / rtp pub timeout)
 	Sub  string `json:"sub,omitempty"` // rtmp | flv | ts | rtsp
@@ -66,21 +66,32 @@ func genCase(t *rapid.T) Case {
 	c.Out = rapid.SampledFrom([]string{"", "flv", "hls", ""}).Draw(t, "out")
 	c.Auth = rapid.IntRange(0, 2).Draw(t, "auth") == 1
 	n := rapid.IntRange(2, 14).Draw(t, "nactions")
-	kinds := []string{"pub-rtmp", "pub-rtmp", "pub-rtmp", "pub-rtsp", "pub-rtp", "pub-customize", "input-leave", "input-leave", "sub", "sub", "sub", "sub-leave", "kick", "kick",
+	kinds := []string{"pub-rtmp", "pub-rtmp", "pub-rtmp", "pub-rtsp", "pub-rtp", "pub-customize", "input-leave", "input-leave", "sub", "sub", "sub", "sub-leave", "sub-rejoin", "kick", "kick",
 		"pull-start", "pull-start", "pull-proceed", "pull-proceed", "pull-stop", "refused-sends", "refused-sends", "tick", "tick", "pub-rtp"}
 	for i := 0; i < n; i++ {
 		a := Action{Kind: rapid.SampledFrom(kinds).Draw(t, "kind"), Name: rapid.IntRange(0, c.Names-1).Draw(t, "name"), Sel: rapid.IntRange(0, 7).Draw(t, "sel")}
-		if i == 0 && rapid.IntRange(0, 3).Draw(t, "pullFirst") == 1 {
+		if i == 0 && rapid.IntRange(0, 4).Draw(t, "pullFirst") == 1 {
 			// most pulls are started on a stream that already has an input (and refused): start a share of the
 			// histories with one
 			a.Kind = "pull-start"
 		}
-		if i > 0 && c.Actions[i-1].Kind == "pull-start" && rapid.IntRange(0, 2).Draw(t, "pullAttaches") == 1 {
-			// a relay pull as the accepted input needs "origin answers play" before anything else takes the stream
-			// and before lal's pull timeout: too rare by chance
-			a = Action{Kind: "pull-proceed", Name: c.Actions[i-1].Name, Sel: 1}
+		if i > 0 && c.Actions[i-1].Kind == "pull-start" {
+			switch rapid.IntRange(0, 5).Draw(t, "afterPullStart") {
+			case 1, 2:
+				// a relay pull as the accepted input needs "origin answers play" before anything else takes the
+				// stream and before lal's pull timeout: too rare by chance
+				a = Action{Kind: "pull-proceed", Name: c.Actions[i-1].Name, Sel: 1}
+			case 3:
+				// ... and so is a tick while the pull is connecting, followed by the origin's answer
+				a = Action{Kind: "tick", Name: c.Actions[i-1].Name, Sel: a.Sel}
+			}
+		}
+		if i > 1 && c.Actions[i-2].Kind == "pull-start" && c.Actions[i-1].Kind == "tick" && rapid.IntRange(0, 2).Draw(t, "afterTick") != 1 {
+			a = Action{Kind: "pull-proceed", Name: c.Actions[i-2].Name, Sel: 1 + a.Sel%2}
 		}
 		switch a.Kind {
+		case "kick":
+			a.Sel = rapid.IntRange(0, 31).Draw(t, "kickSel") // the candidate list is longer than 8 in busy histories
 		case "sub":
 			a.Sub = rapid.SampledFrom([]string{"rtmp", "flv", "ts", "rtsp"}).Draw(t, "subKind")
 			if c.Auth {
@@ -399,7 +410,7 @@ func (w *world) apply(ai int, a Action, st *streamModel) *pbt.Violation {
 		}
 		st.subs = append(st.subs, &subscriber{kind: a.Sub, k: k, id: id, epoch: st.epoch})
 		w.accSubs[id] = true
-	case "sub-leave":
+	case "sub-leave", "sub-rejoin":
 		if len(st.subs) == 0 {
 			return nil
 		}
@@ -409,6 +420,10 @@ func (w *world) apply(ai int, a Action, st *streamModel) *pbt.Violation {
 		sb.k.conn().WaitPeerDone(lalclient.IdleTimeout)
 		st.subs = append(st.subs[:i], st.subs[i+1:]...)
 		st.staleIDs = append(st.staleIDs, sb.id)
+		if a.Kind == "sub-rejoin" {
+			// a client that reconnects: a new subscriber of the same kind right behind the departure
+			return w.apply(ai, Action{Kind: "sub", Name: a.Name, Sel: a.Sel, Sub: sb.kind}, st)
+		}
 	case "kick":
 		// candidates: the input, each sub, stale ids, ids of the other stream
 		var ids []string
@@ -429,6 +444,22 @@ func (w *world) apply(ai int, a Action, st *streamModel) *pbt.Violation {
 				}
 			}
 		}
+		// for every attached session an id of the same kind and length that is not attached to this stream
+		attached := map[string]bool{}
+		if st.in != nil {
+			attached[st.in.id] = true
+		}
+		for _, sb := range st.subs {
+			attached[sb.id] = true
+		}
+		var sibs []string
+		for id := range attached {
+			if sib := siblingID(id); sib != "" && !attached[sib] {
+				sibs = append(sibs, sib)
+			}
+		}
+		sort.Strings(sibs) // map order must not reach the history
+		ids = append(ids, sibs...)
 		ids = append(ids, "RTMPPUBSUB99999", "FLVSUB99999", "nonsense", "PSPUB99999")
 		id := ids[a.Sel%len(ids)]
 		var resp base.ApiCtrlKickSessionResp
@@ -621,6 +652,22 @@ func (w *world) retire(st *streamModel, in *input) {
 	st.old = append(st.old, in)
 	w.sendBadOnOldHandle(in)
 	w.graceForBad(st)
+}
+
+// siblingID changes the last digit of a session id ("RTSPSUB7" -> "RTSPSUB8").
+func siblingID(id string) string {
+	if id == "" {
+		return ""
+	}
+	c := id[len(id)-1]
+	if c < '0' || c > '9' {
+		return ""
+	}
+	n := byte('0' + (c-'0'+1)%10)
+	if len(id) >= 2 && (id[len(id)-2] < '0' || id[len(id)-2] > '9') && n == '0' {
+		n = '1' // a single-digit number does not become 0
+	}
+	return id[:len(id)-1] + string(n)
 }
 
 // sendBadRtmp sends the media of a party that is not (or no longer) the accepted input: the opaque audio message
@@ -1165,6 +1212,6 @@ func uniq(in []string) []string {
 func TestOneInput(t *testing.T) {
 	pbt.Run(t, pbt.Spec[Case]{
 		ID: "C03", Name: "one-input", Gen: genCase, Run: run, Classify: classify,
-		Quick: 250, Thorough: 2500,
+		Quick: 200, Thorough: 2500,
 	})
 }
